@@ -238,6 +238,11 @@ package server
 //@   requires nonnil: t != nil
 //@   requires unlocked: allunlocked("Havoc/cmd/server.Client", "Mutex")
 //@   modifies t.EventsList, t.EventsList[len(t.EventsList)], t.EventsList[len(t.EventsList)+1], ghostint(t, "sent")
+// the mark that is retained for later operators and the one sent to the present ones are the same
+// event, built for this agent id and this mark, and nobody is left out of the broadcast
+//@   guard-call made:     "MarkAs" arg(1) == AgentID && arg(2) == Mark
+//@   guard-call retained: "EventAppend" arg(1) == lastresult(MarkAs)
+//@   guard-call sent:     "EventBroadcast" arg(1) == "" && arg(2) == lastresult(MarkAs)
 //@ func (t *Teamserver) Died(Agent *agent.Agent)
 //@   requires nonnil: t != nil && t.DB != nil && t.DB.db != nil && Agent != nil && Agent.Info != nil && noNilLinks(Agent) && forall(i, 0, len(t.Agents.Agents), t.Agents.Agents[i] != nil && noNilLinks(t.Agents.Agents[i]))
 //@   requires unlocked: allunlocked("Havoc/cmd/server.Client", "Mutex")
@@ -248,3 +253,5 @@ package server
 
 //@ func (t *Teamserver) AgentUpdate(agent *agent.Agent)
 //@   requires nonnil: t != nil && t.DB != nil && t.DB.db != nil && agent != nil && agent.Info != nil
+// the row rewritten is the row of the agent handed in
+//@   guard-call row: "AgentUpdate" arg(0) == t.DB && arg(1) == agent
